@@ -253,6 +253,23 @@ def index_from_own_range(coll, idx):
     if idx[0] == "call" and itm(idx[1], "position"):
         if contains(idx[2][0], lambda q: q[0] == "call" and re.search(r"::(iter|iter_mut)$", q[1]) and same(q[2][0])):
             return "position() in the same collection"
+    if idx[0] == "call" and itm(idx[1], "find") and len(idx[2]) == 2:
+        # (0..coll.len()).find(p): an element of the range, hence < len
+        r = idx[2][0]
+        while r[0] == "call" and len(r[2]) == 1 and re.search(r"::into_iter$|Iterator>?::by_ref$", r[1].split("{")[0]):
+            r = r[2][0]
+        if r[0] == "agg" and r[1] == "std::ops::Range":
+            f = dict(r[3])
+            end = f.get("end")
+            if f.get("start") == ("const", "usize", 0) and end is not None and end[0] == "call" and re.search(r"::len$", end[1]) and same(end[2][0]):
+                return "(0..len(same collection)).find(..)"
+    # a prefix coll[..i] / coll[..=i] with i in range is in range as well
+    if idx[0] == "agg" and idx[1] in ("std::ops::RangeTo", "std::ops::RangeToInclusive"):
+        e = dict(idx[3]).get("end")
+        if e is not None:
+            r = index_from_own_range(coll, e)
+            if r:
+                return "prefix up to an index from " + r
     return None
 
 
@@ -561,6 +578,10 @@ def discharge(F, s, ctxinfo):
                             some = switch_target(tt, names, "Some")
                             if b.dominates(some, bb):
                                 return "x[1..] dominated by x.first() == Some(_)"
+                if idx[0] == "agg" and idx[1] in ("std::ops::RangeTo", "std::ops::RangeToInclusive"):
+                    r = index_from_own_range(unmut_all(coll), unmut_all(idx))
+                    if r:
+                        return r
                 return None
             r = index_from_own_range(coll, idx)
             if r:
